@@ -49,9 +49,11 @@ VARIABLES
   \* @type: Set(Int);
   saved,          \* instances whose state is on disk
   \* @type: Int -> Int;
-  scal            \* 0, or (a token for) the secret scalar: what serialize() reports as xy_scalar
+  scal,           \* 0, or (a token for) the secret scalar: what serialize() reports as xy_scalar
+  \* @type: Int -> Bool;
+  limbo           \* a start() failed because the entropy function raised (Spake2!StartFails)
 
-lvars == <<alive, started, finished, gaveMsg, gaveKey, restored, nmsg, nkey, entropy, origin, saved, scal>>
+lvars == <<alive, started, finished, gaveMsg, gaveKey, restored, nmsg, nkey, entropy, origin, saved, scal, limbo>>
 
 Ids == 1..NIds
 
@@ -60,12 +62,13 @@ LInit ==
   /\ gaveMsg = [i \in Ids |-> FALSE] /\ gaveKey = [i \in Ids |-> FALSE] /\ restored = [i \in Ids |-> FALSE]
   /\ nmsg = [i \in Ids |-> 0] /\ nkey = [i \in Ids |-> 0] /\ entropy = [i \in Ids |-> 0]
   /\ origin = [i \in Ids |-> 0] /\ saved = {} /\ scal = [i \in Ids |-> 0]
+  /\ limbo = [i \in Ids |-> FALSE]
 
 (* a constructor: draws no entropy                                           *)
 LNew(i) ==
   /\ ~alive[i]
   /\ alive' = [alive EXCEPT ![i] = TRUE]
-  /\ UNCHANGED <<started, finished, gaveMsg, gaveKey, restored, nmsg, nkey, entropy, origin, saved, scal>>
+  /\ UNCHANGED <<started, finished, gaveMsg, gaveKey, restored, nmsg, nkey, entropy, origin, saved, scal, limbo>>
 
 (* the one start() that returns a message; it alone draws entropy            *)
 LStart(i) ==
@@ -77,7 +80,7 @@ LStart(i) ==
   /\ gaveMsg' = [gaveMsg EXCEPT ![i] = TRUE]
   /\ nmsg' = [nmsg EXCEPT ![i] = @ + 1]
   /\ entropy' = [entropy EXCEPT ![i] = @ + 1]
-  /\ UNCHANGED <<alive, finished, gaveKey, restored, nkey, origin, saved>>
+  /\ UNCHANGED <<alive, finished, gaveKey, restored, nkey, origin, saved, limbo>>
 
 (* the first finish(): consumed whatever it does; a key needs a started      *)
 (* instance (finish() before start() raises)                                 *)
@@ -87,13 +90,13 @@ LFinish(i, key) ==
   /\ finished' = [finished EXCEPT ![i] = TRUE]
   /\ gaveKey' = [gaveKey EXCEPT ![i] = key]
   /\ nkey' = [nkey EXCEPT ![i] = IF key THEN @ + 1 ELSE @]
-  /\ UNCHANGED <<alive, started, gaveMsg, restored, nmsg, entropy, origin, saved, scal>>
+  /\ UNCHANGED <<alive, started, gaveMsg, restored, nmsg, entropy, origin, saved, scal, limbo>>
 
 (* serialize() on a started instance                                         *)
 LSerialize(i) ==
   /\ alive[i] /\ started[i]
   /\ saved' = saved \cup {i}
-  /\ UNCHANGED <<alive, started, finished, gaveMsg, gaveKey, restored, nmsg, nkey, entropy, origin, scal>>
+  /\ UNCHANGED <<alive, started, finished, gaveMsg, gaveKey, restored, nmsg, nkey, entropy, origin, scal, limbo>>
 
 (* from_serialized() on state saved by i: a started instance that has sent   *)
 (* nothing itself and has not finished; draws no entropy                     *)
@@ -104,7 +107,7 @@ LRestore(j, i) ==
   /\ restored' = [restored EXCEPT ![j] = TRUE]
   /\ origin' = [origin EXCEPT ![j] = i]
   /\ scal' = [scal EXCEPT ![j] = scal[i]]
-  /\ UNCHANGED <<finished, gaveMsg, gaveKey, nmsg, nkey, entropy, saved>>
+  /\ UNCHANGED <<finished, gaveMsg, gaveKey, nmsg, nkey, entropy, saved, limbo>>
 
 (* crash and revive in one step (Spake2!PersistAndRevive)                     *)
 LPersistAndRevive(j, i) ==
@@ -115,7 +118,15 @@ LPersistAndRevive(j, i) ==
   /\ restored' = [restored EXCEPT ![j] = TRUE]
   /\ origin' = [origin EXCEPT ![j] = i]
   /\ scal' = [scal EXCEPT ![j] = scal[i]]
-  /\ UNCHANGED <<finished, gaveMsg, gaveKey, nmsg, nkey, entropy>>
+  /\ UNCHANGED <<finished, gaveMsg, gaveKey, nmsg, nkey, entropy, limbo>>
+
+(* start() with an entropy function that raises: no message, no scalar, no    *)
+(* entropy accounted; the instance is in limbo (a later start() may still be  *)
+(* THE start, or be refused)                                                  *)
+LStartFails(i) ==
+  /\ alive[i] /\ ~started[i]
+  /\ limbo' = [limbo EXCEPT ![i] = TRUE]
+  /\ UNCHANGED <<alive, started, finished, gaveMsg, gaveKey, restored, nmsg, nkey, entropy, origin, saved, scal>>
 
 (* every call that must raise - start() again or on a restored instance,     *)
 (* finish() again, serialize() before start(), from_serialized() of a bad or *)
@@ -123,7 +134,7 @@ LPersistAndRevive(j, i) ==
 LRefused == UNCHANGED lvars
 
 LNext ==
-  \/ \E i \in Ids : LNew(i) \/ LStart(i) \/ LSerialize(i)
+  \/ \E i \in Ids : LNew(i) \/ LStart(i) \/ LSerialize(i) \/ LStartFails(i)
   \/ \E i \in Ids : \E key \in BOOLEAN : LFinish(i, key)
   \/ \E i, j \in Ids : LRestore(j, i) \/ LPersistAndRevive(j, i)
   \/ LRefused
@@ -146,7 +157,11 @@ RestoredFromSaved  == \A j \in Ids : restored[j] => (origin[j] \in saved /\ star
 (* a started instance has a scalar; a restored one has its origin's (C07, C08) *)
 ScalarInLineage    == \A j \in Ids : /\ (started[j] <=> scal[j] # 0)
                                        /\ (restored[j] => scal[j] = scal[origin[j]])
-Safety == /\ AtMostOneMsg /\ RestoredNeverSends /\ AtMostOneKey /\ KeyNeedsStart /\ EntropyOnlyInStart
+(* an instance whose only start() calls failed has sent nothing, has no key,   *)
+(* no scalar and nothing on disk                                             *)
+LimboHasNothing    == \A i \in Ids : (limbo[i] /\ ~started[i]) =>
+                                        (nmsg[i] = 0 /\ nkey[i] = 0 /\ scal[i] = 0 /\ i \notin saved /\ entropy[i] = 0)
+Safety == /\ LimboHasNothing /\ AtMostOneMsg /\ RestoredNeverSends /\ AtMostOneKey /\ KeyNeedsStart /\ EntropyOnlyInStart
           /\ SavedWereStarted /\ RestoredFromSaved /\ ScalarInLineage
 
 (* C07: the scalar reported by serialize() never changes during the life of an instance (an ACTION invariant:  *)
@@ -167,7 +182,9 @@ IndInv ==
   /\ origin \in [Ids -> 0..NIds]
   /\ saved \in SUBSET Ids
   /\ scal \in [Ids -> 0..NScal]
+  /\ limbo \in [Ids -> BOOLEAN]
   /\ \A i \in Ids :
+       /\ (limbo[i] => alive[i] /\ ~restored[i])
        /\ (started[i] <=> scal[i] # 0)
        /\ (restored[i] => (origin[i] \in Ids /\ scal[i] = scal[origin[i]]))
        /\ nmsg[i] = (IF gaveMsg[i] THEN 1 ELSE 0)
